@@ -236,6 +236,35 @@ pub fn debug_plan(driver: &str, spec: &str) -> i32 {
     if o.problems.is_empty() && o.machinery.is_empty() { 0 } else { 1 }
 }
 
+/// C02's driver-level face: the baseline workload of both drivers under every single write deviation.
+pub fn run_write_deviation_slice(report: &mut Report) {
+    let known = KnownFindings::load();
+    let pool = rayon::ThreadPoolBuilder::new().num_threads(threads()).build().unwrap();
+    let mut executions = 0u64;
+    for (driver, execute) in [("threaded", threaded_h::execute as fn(&Plan) -> Outcome), ("tokio", tokio_h::execute as fn(&Plan) -> Outcome)] {
+        let Ok(base) = guarded(|| execute(&Plan::default())) else { report.machinery_errors.push(format!("{} baseline panicked", driver)); continue; };
+        let mut plans = Vec::new();
+        for i in 0..base.writes { for d in [WriteDev::One, WriteDev::AllButOne, WriteDev::Block, WriteDev::Interrupted, WriteDev::Zero] { let mut p = Plan::default(); p.writes.insert(i, d); plans.push(p); } }
+        let outcomes: Vec<Outcome> = pool.install(|| plans.par_iter().filter_map(|p| guarded(|| execute(p)).ok()).collect());
+        executions += outcomes.len() as u64 + 1;
+        let mut seen: HashSet<String> = HashSet::new();
+        for o in std::iter::once(&base).chain(outcomes.iter()) {
+            for (signature, detail) in &o.problems {
+                if !(signature.contains("not-a-valid-mqtt-stream") || signature.contains("corrupted") || signature.contains("duplicated") || signature.contains("first-packet-not-connect") || signature.contains("stops-making-progress")) { continue; }
+                if !seen.insert(signature.clone()) { continue; }
+                let again = guarded(|| execute(&o.plan)).map(|a| a.problems.iter().any(|(s, _)| s == signature)).unwrap_or(false);
+                if !again { continue; }
+                let v = Violation::new("C13", format!("{}: {}", driver, signature), detail.clone());
+                if known.matches(&v).is_some() { continue; }
+                let body = json!({"kind": "driver-plan", "driver": driver, "spec": plan_spec(&o.plan), "plan": format!("{:?}", o.plan), "io_log": o.io_log, "signature": signature, "detail": detail});
+                let path = write_replay("C13", &format!("{}-{}", driver, signature), &body);
+                if !report.violations.iter().any(|(x, _)| x.property == v.property && x.signature == v.signature) { report.violations.push((v, path)); }
+            }
+        }
+    }
+    report.add_count("driver_write_deviation_executions", executions);
+}
+
 /// C16, submission-time clause on the real client handles: the baseline workload of both drivers contains two statically
 /// invalid submissions (publish to a wildcard topic, empty SUBSCRIBE); they must be refused and never reach the wire.
 pub fn run_c16_part(report: &mut Report) {
